@@ -159,12 +159,13 @@ def grep_forbidden():
     return hits
 
 
-def audit(pid, theorems):
+def audit(pid, theorems, imports=("ShipVerif",)):
     """#print axioms for every obligation; returns list of dicts {name, axioms, ok}"""
     d = workdir(pid)
     src = os.path.join(d, "Audit.lean")
     with open(src, "w") as f:
-        f.write("import ShipVerif\n")
+        for m in imports:
+            f.write("import %s\n" % m)
         for t in theorems:
             f.write("#print axioms %s\n" % t)
     with Lock("lake"):
